@@ -351,6 +351,9 @@ def run_harness(exe, lines, per_line_timeout=20.0, env=None, args=(), stateful=F
     aborts = []
     pos = 0
     env = env or ENV_RUN
+    if cwd is None:
+        cwd = os.path.join(CACHE, 'run')
+        os.makedirs(cwd, exist_ok=True)
     while pos < len(lines):
         chunk = lines[pos:]
         errf = os.path.join(CACHE, 'err_%d.txt' % os.getpid())
